@@ -129,6 +129,8 @@ def collect(rng, thorough, per_class, hist=None, known_ids=(), on_view=None, ins
         want = choose_views(rng, thorough)
         if cls in ops.VIEWS_ONLY:
             want = [v for v in want if v in ops.VIEWS_ONLY[cls]]
+        if not thorough and cls in ops.VIEWS_QUICK:
+            want = [v for v in want if v in ops.VIEWS_QUICK[cls] or (v == "adj" and rng.random() < 1 / 3)]
         for view, fn, shp, dt in ops.views(A, want):
             rec = {"cls": cls, "config": cfg, "view": view, "field": fld}
             records.append(rec)
